@@ -158,7 +158,7 @@ func VerifC15AddSet() {
 	k := nd.Concretize(nd.Choice(nd.Param("k") + 1))
 	j := nd.Concretize(nd.Choice(nd.Param("j") + 1))
 	s := c15sym(k, 0)
-	t := c15sym(j, 0)
+	t := c15sym(j, nd.Concretize(nd.Choice(2)))
 	nd.Assume(c15inv(s))
 	nd.Assume(c15inv(t))
 	pre := c15copy(s)
@@ -170,6 +170,23 @@ func VerifC15AddSet() {
 	nd.Assume(q != 0)
 	nd.Assert(c15member(post, q) == nd.Or(c15member(pre, q), c15member(t, q)), "addset-membership-is-union")
 	nd.Assert(s.Dynamic() == nd.Or(c15dynamic(pre), c15dynamic(t)), "addset-dynamic")
+	// sets are values: a later insertion into one of the two sets must not show
+	// through in the other one (no shared backing store after the union)
+	tval := c15copy(t)
+	a, b := nd.Uint32(), nd.Uint32()
+	if nd.Bool() {
+		s.AddRange(a, b)
+		nd.Assert(len(t) == len(tval), "addset-argument-changed-by-later-insertion-into-receiver")
+		for i := range tval {
+			nd.Assert(nd.And(t[i].Start == tval[i].Start, t[i].Stop == tval[i].Stop), "addset-argument-changed-by-later-insertion-into-receiver")
+		}
+	} else {
+		t.AddRange(a, b)
+		nd.Assert(len(s) == len(post), "addset-receiver-changed-by-later-insertion-into-argument")
+		for i := range post {
+			nd.Assert(nd.And(s[i].Start == post[i].Start, s[i].Stop == post[i].Stop), "addset-receiver-changed-by-later-insertion-into-argument")
+		}
+	}
 }
 
 // VerifC15Search: binary search membership vs the linear reference, q = 0 included.
